@@ -1,7 +1,9 @@
 #!/bin/bash
-# Runs every thorough command in sequence (C01 first), logging wall time and peak RSS per check.
+# Runs every thorough command in sequence, logging wall time and peak RSS per check.
+# usage: ./run_thorough_all.sh [ID ...]   (default: C01..C20)
 cd "$(dirname "$0")"
-for c in C01 C02 C03 C04 C05 C06 C07 C08 C09 C10 C11 C12 C13 C14 C15 C16 C17 C18 C19 C20; do
+ids=("$@"); [ ${#ids[@]} -eq 0 ] && ids=(C01 C02 C03 C04 C05 C06 C07 C08 C09 C10 C11 C12 C13 C14 C15 C16 C17 C18 C19 C20)
+for c in "${ids[@]}"; do
   /usr/bin/time -f "$c wall=%es maxrss=%MKB" ./check $c thorough > out.$c.log 2>&1
   rc=$?
   echo "$c exit=$rc $(tail -1 out.$c.log)"
